@@ -90,7 +90,29 @@ fn mapping(rng: &mut Rng) -> Value {
 /// long triggers, long letter rows.
 fn big_program(rng: &mut Rng) -> Value {
   let mut v: Vec<Value> = vec![];
-  match rng.below(4) {
+  match rng.below(6) {
+    4 | 5 => { // a fan of modifier combinations for one or two final keys, as alias-heavy layouts have:
+      // dozens of mappings ending in the same key whose triggers include one another, in random order
+      let groups: [(&str, [&str; 3]); 4] = [("@s", ["LEFTSHIFT", "RIGHTSHIFT", "CAPSLOCK"]), ("@c", ["LEFTCTRL", "RIGHTCTRL", "TAB"]), ("@a", ["LEFTALT", "RIGHTALT", "GRAVE"]), ("@m", ["LEFTMETA", "RIGHTMETA", "BACKSLASH"])];
+      let ng = rng.range(2, 4);
+      for (name, defs) in &groups[..ng] { for d in &defs[..rng.range(1, 3)] { v.push(json!({"from": d, "to": name})); } }
+      let finals = ["X", "Y"];
+      let mut combos: Vec<Value> = vec![];
+      for f in &finals[..rng.range(1, 2)] {
+        for mask in 0u32..(1 << ng) {
+          if rng.chance(1, 5) { continue; }
+          let mut from: Vec<&str> = vec![];
+          for g in 0..ng { if mask & (1 << g) != 0 { from.push(groups[g].0); } }
+          from.push(f);
+          let out_key: &str = ["A", "B", "C", "D"][rng.below(4)];
+          let mut m = json!({"from": from, "to": [out_key]});
+          if rng.chance(1, 6) { m["repeat"] = json!("Disabled"); }
+          combos.push(m);
+        }
+      }
+      for i in (1..combos.len()).rev() { let j = rng.below(i + 1); combos.swap(i, j); }
+      v.extend(combos);
+    }
     0 => { // hundreds of plain mappings
       let n = [64, 255, 256, 257, 600][rng.below(5)];
       let pool = ["A", "B", "C", "D", "E", "F", "G", "H", "I", "J", "K", "L", "M", "N", "O", "P", "Q", "R", "S", "T"];
@@ -124,7 +146,7 @@ fn big_program(rng: &mut Rng) -> Value {
 
 pub fn layout_program(rng: &mut Rng) -> Value {
   if rng.chance(1, 30) { return junk(rng); }
-  if rng.chance(1, 40) { return big_program(rng); }
+  if rng.chance(1, 25) { return big_program(rng); }
   let n = rng.below(6);
   let mut v: Vec<Value> = vec![];
   if rng.chance(1, 2) { v.push(json!({"from": "LEFTSHIFT", "to": "@shift"})); v.push(json!({"from": "RIGHTSHIFT", "to": "@shift"})); }
@@ -264,7 +286,7 @@ impl StoreCampaign {
     }
     let (mut bytes, origin) = match rng.below(10) {
       0..=1 => { let (n, t) = &self.texts[rng.below(self.texts.len())]; (t.as_bytes().to_vec(), n.clone()) }
-      2 => { let mut st = GenStats::default(); let _ = &mut st; let o = LayoutOpts { weird: rng.chance(1, 3), related: rng.chance(1, 2), absorbing: true, norepeat: true, special: true, max_map: 5, big: false, edge_times: true }; let l = gen_layout(&mut rng, &o); (serde_json::to_vec_pretty(&l).unwrap(), "random basic layout as saved".to_string()) }
+      2 => { let mut st = GenStats::default(); let _ = &mut st; let o = LayoutOpts { weird: rng.chance(1, 3), related: rng.chance(1, 2), dense: rng.chance(1, 6), absorbing: true, norepeat: true, special: true, max_map: 5, big: false, edge_times: true }; let l = gen_layout(&mut rng, &o); (serde_json::to_vec_pretty(&l).unwrap(), "random basic layout as saved".to_string()) }
       _ => { let v = layout_program(&mut rng); (if rng.chance(1, 2) { serde_json::to_vec(&v).unwrap() } else { serde_json::to_vec_pretty(&v).unwrap() }, "generated program".to_string()) }
     };
     let mut path = PathKind::File;
